@@ -46,7 +46,7 @@ def jobs(prop, tier, only_fn=None):
             if tier == "quick":
                 continue  # no verdict within 600 s with pointer checks on: thorough tier only, without them
             cm["memchecks"] = False
-            cm["timeout"] = 2400
+            cm["timeout"] = 900  # measured: no verdict in 2400 s either; reported as inconclusive, never as holding
         if scen == 6:
             cm["memchecks"] = False  # 520-element clears under pointer checks exhaust memory; the vswprintf model asserts its buffer
         out.append(Job("%s.C20" % name, "C20", "h_alloc.c", files, defines=["-DSCEN=%d" % scen] + defs, repo_defines=WRAP, models=models,
